@@ -422,12 +422,15 @@ def run(model, rep, tier):
     rep.rule('R04.3', 'zero rules, memo and assertion of the driver')
     rep.rule('R04.4', 'linear structural rules act on the right axis of the derivative')
     rep.rule('R04.5', 'derivatives accumulated over arguments are added, not overwritten')
+    rep.rule('R04.6', 'Monomial._derivative ravels the argument multi-index row-major (= R13.7, symbolic execution)')
     rep.trusted_base.append('oracles/calculus.json (textbook calculus)')
     check_tables(model, rep, oracle)
     check_einsum(model, rep)
     check_zero_rules(model, rep)
     check_linear(model, rep)
     check_accumulation(model, rep)
+    from rules.c13 import check_monomial_ravel
+    check_monomial_ravel(model, rep, rule='R04.6')
     rep.require('R04.1', 50)
     rep.require('R04.2', 16)
     rep.require('R04.3', 8)
